@@ -102,6 +102,9 @@ pub enum Shape {
     Pure(i64),
     PureWith(u8),
     Fail(S),
+    /// parsers from `bpaf::batteries`: 0 verbose_and_quiet_by_number, 1 verbose_by_slice,
+    /// 2 toggle_flag(--on, --off)
+    Battery(u8),
     Cmd {
         name: S,
         shorts: Vec<char>,
@@ -127,6 +130,8 @@ pub struct Opts {
     pub help_names: Option<Named>,
     pub version_names: Option<Named>,
     pub fallback_to_usage: bool,
+    /// wrap the root into `batteries::cargo_helper(cmd, ..)`
+    pub cargo: Option<S>,
 }
 
 impl Opts {
@@ -142,6 +147,7 @@ impl Opts {
             help_names: None,
             version_names: None,
             fallback_to_usage: false,
+            cargo: None,
         }
     }
 }
@@ -375,6 +381,17 @@ pub fn build(shape: &Shape) -> P {
             .boxed()
         }
         Shape::Fail(msg) => bpaf::fail::<Val>(msg).boxed(),
+        Shape::Battery(kind) => match kind {
+            0 => bpaf::batteries::verbose_and_quiet_by_number(2, 0, 5)
+                .map(|n| Val::Int(n as i64))
+                .boxed(),
+            1 => bpaf::batteries::verbose_by_slice(1, [10i64, 20, 30])
+                .map(Val::Int)
+                .boxed(),
+            _ => bpaf::batteries::toggle_flag(bpaf::long("on"), 1i64, bpaf::long("off"), 0i64)
+                .map(|o| Val::Opt(o.map(|v| Box::new(Val::Int(v)))))
+                .boxed(),
+        },
         Shape::Cmd {
             name,
             shorts,
@@ -568,7 +585,11 @@ fn build_wrap(w: &W, p: P) -> P {
 }
 
 pub fn build_opts(o: &Opts) -> OptionParser<Val> {
-    let mut p = build(&o.root).to_options();
+    let root = build(&o.root);
+    let mut p = match o.cargo {
+        Some(cmd) => bpaf::batteries::cargo_helper(cmd, root).to_options(),
+        None => root.to_options(),
+    };
     if let Some(d) = o.descr {
         p = p.descr(d);
     }
@@ -652,6 +673,7 @@ impl Shape {
             Shape::Pure(_) => "pure".into(),
             Shape::PureWith(k) => format!("purew{}", k),
             Shape::Fail(_) => "fail".into(),
+            Shape::Battery(k) => format!("bat{}", k),
             Shape::Cmd { adjacent, opts, .. } => {
                 format!("cmd{}<{}>", if *adjacent { "=" } else { "" }, opts.root.skeleton())
             }
@@ -750,10 +772,11 @@ impl Opts {
 
     pub fn skeleton(&self) -> String {
         format!(
-            "{}{}{}",
+            "{}{}{}{}",
             self.root.skeleton(),
             if self.version.is_some() { "+v" } else { "" },
-            if self.fallback_to_usage { "+u" } else { "" }
+            if self.fallback_to_usage { "+u" } else { "" },
+            if self.cargo.is_some() { "+c" } else { "" }
         )
     }
 }
@@ -1000,6 +1023,7 @@ impl Shape {
             Shape::Pure(n) => J::obj(vec![("k", J::s("pure")), ("val", J::Int(*n))]),
             Shape::PureWith(k) => J::obj(vec![("k", J::s("pure_with")), ("kind", J::Int(*k as i64))]),
             Shape::Fail(m) => J::obj(vec![("k", J::s("fail")), ("msg", js(m))]),
+            Shape::Battery(k) => J::obj(vec![("k", J::s("battery")), ("kind", J::Int(*k as i64))]),
             Shape::Cmd {
                 name,
                 shorts,
@@ -1068,6 +1092,7 @@ impl Shape {
             "pure" => Shape::Pure(j.req("val")?.as_i64()?),
             "pure_with" => Shape::PureWith(u8_from(j.get("kind"))),
             "fail" => Shape::Fail(intern(j.req("msg")?.as_str()?)),
+            "battery" => Shape::Battery(u8_from(j.get("kind"))),
             "command" => Shape::Cmd {
                 name: intern(j.req("name")?.as_str()?),
                 shorts: chars_from(j.get("short"))?,
@@ -1127,6 +1152,9 @@ impl Opts {
         if self.fallback_to_usage {
             kv.push(("fallback_to_usage", J::Bool(true)));
         }
+        if let Some(c) = self.cargo {
+            kv.push(("cargo_helper", js(c)));
+        }
         J::obj(kv)
     }
     pub fn from_j(j: &J) -> Result<Opts, String> {
@@ -1141,6 +1169,7 @@ impl Opts {
             help_names: j.get("help_names").map(Named::from_j).transpose()?,
             version_names: j.get("version_names").map(Named::from_j).transpose()?,
             fallback_to_usage: b_from(j.get("fallback_to_usage")),
+            cargo: os_from(j.get("cargo_helper"))?,
         })
     }
 }
